@@ -6,6 +6,8 @@ STUB_COMMON = ["OS sockets (verifsim/simnet)", "clock (testing/synctest bubble)"
 
 H1_REAL = ["pkg/gossip: clusterState, codec (encode/decodeDigest/Delta), packetListener, streamListener, Gossip (gossip/join/leave), accrualFailureDetector, Watcher calls", "ugorji msgpack codec", "prometheus client"]
 
+H2_REAL = ["pkg/gossip.Gossip", "server/gossip syncer (via NewGossip)", "server/cluster.State", "server/upstream.LoadBalancedManager", "ugorji msgpack codec", "prometheus client"]
+
 PROPS = {
     "SMOKE": dict(rule="kernel self-test workload; no oracle", batch=1, quick_budget=20, quick_runs=16,
                   real=["server.Server x3", "client.Upstream listeners"], stub=STUB_COMMON),
@@ -30,6 +32,15 @@ PROPS = {
     "C12": dict(claimed=True, engine="h1-gossipsim", level_text="seeded search: the real accrual detector is fed by peer goroutines paced by the simulated clock (jitter, bursts, silences, removals, windows 1-64) and compared at arbitrary query instants with an exact reference over the recorded arrival instants (exact, accuracy, completeness, window rules); a free-running family checks the production wiring (report on every delta, threshold 20, window 50) against recorded delivery instants",
                 rule="direct family: scripts of concurrent arrival bursts, silences, queries, removals, twin-history comparisons; free family as C11. non-trivial = the sample window wrapped at least once",
                 batch=12, quick_budget=40, thorough_budget=900, real=H1_REAL, stub=STUB_COMMON),
+    "C04": dict(claimed=True, engine="h2-routesim", level_text="seeded search: real gossip + syncer + routing table + registry per node; after every step, whenever an observer's gossip view has caught up with an owner, its routing table must equal what the owner advertises (addresses, endpoints, counts), statuses must follow the gossip flags, and every lookup result must be a remote, active advertiser; histories include endpoint churn, truncation, loss, relay, compaction, leave, crash, unreachable/reachable transitions, expiry and late joiners",
+                rule="driven routing histories (scripts of upstream add/remove on owners, rounds, per-datagram fates, compaction, liveness, expiry, leave, crash, late joiners, plus targeted motifs). non-trivial = some observer caught up with some owner during the run",
+                batch=40, quick_budget=40, thorough_budget=900, real=H2_REAL, stub=STUB_COMMON + ["upstream connections (fake Upstream values registered with the real manager)"]),
+    "C05": dict(claimed=True, engine="h2-routesim", level_text="seeded search over registration histories (adds, removals, repeated and late removals with and without siblings) sequentially and from concurrent goroutines under the seeded scheduler with lock yields; at every quiescence registry = local routing entry = published gossip entries = ground truth",
+                rule="driven family: scripts dominated by add/remove/duplicate-remove; concurrent family: 2-5 worker goroutines against real tickers. non-trivial = a late or repeated removal happened, or the run was concurrent",
+                batch=40, quick_budget=40, thorough_budget=900, real=H2_REAL, stub=STUB_COMMON + ["upstream connections (fake Upstream values registered with the real manager)"]),
+    "C15": dict(claimed=True, engine="h2-routesim", level_text="seeded search over add/remove/select histories on the real manager: every selection is checked for validity (registered for exactly that endpoint now), no remote when forwarding is disallowed, and fairness (any n consecutive selections of a stable set of n are distinct); a concurrent family checks validity under interleaving",
+                rule="driven family: select-heavy scripts over 1-8 endpoints; concurrent family as C05. non-trivial = a full fairness window was checked",
+                batch=40, quick_budget=40, thorough_budget=900, real=H2_REAL, stub=STUB_COMMON + ["upstream connections (fake Upstream values registered with the real manager)"]),
 }
 
 NOT_APPLICABLE = {}
